@@ -383,20 +383,38 @@ func c10(r *core.Run) {
 func c10Census(r *core.Run, h *core.Handler, allowed string) {
 	p := r.Prog
 	var getCalls []*ssa.Call
-	allInstrs(h.Fn, func(in ssa.Instruction) {
-		if c, ok := in.(*ssa.Call); ok {
-			for _, cal := range p.Callees(c) {
-				if gi := p.StoreGetter(cal); gi != nil && gi.Module+"/"+gi.Prefix == ftFiles {
-					getCalls = append(getCalls, c)
-				}
-			}
-		}
-	})
-	for _, e := range p.Effects(h.Fn) {
-		call, ok := e.Instr.(ssa.CallInstruction)
-		if !ok || len(e.Store) == 0 {
+	type site struct {
+		fn *ssa.Function
+		e  *core.Effect
+	}
+	var sites []site
+	// the handler and the helpers it delegates to (validate / apply splits): getter calls and the calls of the record
+	// setter / remover themselves, wherever they sit
+	for _, fn := range p.Summary(h.Fn).Funcs {
+		if isAccessorFn(p, fn) {
 			continue
 		}
+		allInstrs(fn, func(in ssa.Instruction) {
+			if c, ok := in.(*ssa.Call); ok {
+				for _, cal := range p.Callees(c) {
+					if gi := p.StoreGetter(cal); gi != nil && gi.Module+"/"+gi.Prefix == ftFiles {
+						getCalls = append(getCalls, c)
+					}
+				}
+			}
+		})
+		for _, e := range p.Effects(fn) {
+			if _, ok := e.Instr.(ssa.CallInstruction); !ok || len(e.Store) == 0 || e.Direct {
+				continue
+			}
+			if performsDirectly(p, fn, e, "Set", ftFiles) || performsDirectly(p, fn, e, "Delete", ftFiles) {
+				sites = append(sites, site{fn, e})
+			}
+		}
+	}
+	for _, s := range sites {
+		e := s.e
+		call := e.Instr.(ssa.CallInstruction)
 		isSet := false
 		for _, o := range e.Store {
 			if o.Kind == "Set" {
@@ -424,7 +442,7 @@ func c10Census(r *core.Run, h *core.Handler, allowed string) {
 				switch x := ref.(type) {
 				case *ssa.Store:
 					if x.Addr == al {
-						if p.ProvAt(x.Val, "", x).HasStore(ftFiles, "") {
+						if p.ResolveToEntry(p.ProvAt(x.Val, "", x), h.Fn).HasStore(ftFiles, "") {
 							fromGetter = true
 						} else {
 							written["*"] = true
@@ -454,7 +472,7 @@ func c10Census(r *core.Run, h *core.Handler, allowed string) {
 				}
 				same := true
 				for i := range ga {
-					if !(core.SameValue(ga[i], args[i]) || strings.Join(p.ProvAt(ga[i], "", g).Strings(), "|") == strings.Join(p.ProvAt(args[i], "", call).Strings(), "|")) {
+					if !(core.SameValue(ga[i], args[i]) || strings.Join(p.ResolveToEntry(p.ProvAt(ga[i], "", g), h.Fn).Strings(), "|") == strings.Join(p.ResolveToEntry(p.ProvAt(args[i], "", call), h.Fn).Strings(), "|")) {
 						same = false
 					}
 				}
